@@ -125,7 +125,7 @@ inline rc::Gen<FrameHistory> genLongGapHistory()
             hist.frames.push_back(frameOf(0, k == 0 ? 1 : k == eSegments - 1 ? 3 : 2));
             if (k == eSegments - 1)
                 break;
-            int gap = *rc::gen::weightedOneOf<int>({{3, range<int>(17, 40)}, {1, range<int>(41, 70)}, {1, range<int>(1, 16)}});
+            int gap = *rc::gen::weightedOneOf<int>({{6, range<int>(17, 40)}, {2, range<int>(41, 70)}, {2, range<int>(1, 16)}, {1, range<int>(1030, 1300)}});
             for (int g = 0; g < gap; ++g)
             {
                 int o = 1 + *range<int>(0, nOthers - 1);
